@@ -7,16 +7,20 @@ CONSTANTS
   IdxKeyMode = "abs"
   ImgKeepMode = "none"
   LookupsCap = 0
+  FailKeep = FALSE
+  RegionMemo = FALSE
   MaxDepth = 5
   MaxDepthDmg = 4
   MaxDepthCollide = 4
-  Families = {"intact", "dmg", "collide", "img", "fill", "scopes"}
+  Families = {"intact", "dmg", "collide", "img", "fill", "scopes", "var"}
   ImgCounts = {2, 3, 4}
   ImgFilterMode = "own"
   MaxImgFilters = 3
   FillKeys = 1500
   FillLangs = 400
   FillLookups = 600
+  MaxDepthVar = 3
+  VarTuples = {"t0", "tA", "tB", "tC", "tD"}
   MaxDepthScopes = 3
 SPECIFICATION Spec
 VIEW View
